@@ -1,5 +1,11 @@
 package p2pmux
 
+import (
+	"context"
+
+	"go.brendoncarroll.net/p2p"
+)
+
 type vAddr uint8
 
 func (a vAddr) MarshalText() ([]byte, error) { return []byte{'a' + byte(a)}, nil }
@@ -8,3 +14,20 @@ func (a vAddr) String() string               { return string([]byte{'a' + byte(a
 func vClone(x []byte) []byte { return append([]byte{}, x...) }
 
 func vConcat(a, b []byte) []byte { return append(vClone(a), b...) }
+
+type vSentM struct {
+	dst  vAddr
+	data []byte
+}
+
+type vInnerRec struct{ sent *[]vSentM }
+
+func (s vInnerRec) Tell(ctx context.Context, dst vAddr, v p2p.IOVec) error {
+	*s.sent = append(*s.sent, vSentM{dst: dst, data: p2p.VecBytes(nil, v)})
+	return nil
+}
+func (s vInnerRec) Receive(ctx context.Context, fn func(p2p.Message[vAddr])) error { return nil }
+func (s vInnerRec) LocalAddrs() []vAddr                                            { return []vAddr{0} }
+func (s vInnerRec) MTU() int                                                       { return 100 }
+func (s vInnerRec) Close() error                                                   { return nil }
+func (s vInnerRec) ParseAddr(data []byte) (vAddr, error)                           { return 0, nil }
